@@ -23,6 +23,8 @@ func runC05(p *Program, r *Report) {
 	ruleR052(p, r)
 	ruleR053(p, r)
 	ruleR054(p, r)
+	r.Rule("R05.5", "E2", 2, "table rules compare whole table names: every lookup into a table-rule set made by the firewall's table matchers uses a key printed from the complete table expression (sqlparser.String of the TableName / table expression, qualifier included), never from a component such as the bare name")
+	ruleR055(p, r)
 }
 
 func blocksWithCall(fn *ssa.Function, pred func(cs callSite) bool) map[*ssa.BasicBlock]bool {
@@ -557,4 +559,47 @@ func init() {
 	mut("C05", "deny handler forgets its table rules", "acra-censor/handlers/deny_handler.go", "		if atLeastOneTableInBlacklist {\n", "		if atLeastOneTableInBlacklist && len(handler.queries) != 0 {\n", "R05.2", "CheckTableNamesMatch")
 	mut("C05", "unparseable statements pass when not tolerated", "acra-censor/acra-censor_implementation.go", "			acraCensor.logger.WithField(logging.FieldKeyEventCode, logging.EventCodeErrorCensorQueryParseError).Errorln(\"Unparsed query has been denied\")\n			return err", "			acraCensor.logger.WithField(logging.FieldKeyEventCode, logging.EventCodeErrorCensorQueryParseError).Errorln(\"Unparsed query has been denied\")", "R05.2", "unparseable")
 	mut("C05", "pending entry queued before the verdict (original defect)", "decryptor/postgresql/pg_decryptor.go", "		censored, err := proxy.handleQueryPacket(ctx, packet, logger)\n		if err != nil || censored {\n			// the statement is not forwarded, so no response will ever consume a pending entry for it\n			return censored, err\n		}\n		queryPacket := newQueryPacket(query)\n		if err = proxy.protocolState.pendingQueryPackets.Add(queryPacket); err != nil {\n			return false, err\n		}\n		return false, nil", "		queryPacket := newQueryPacket(query)\n		if err = proxy.protocolState.pendingQueryPackets.Add(queryPacket); err != nil {\n			return false, err\n		}\n		return proxy.handleQueryPacket(ctx, packet, logger)", "R05.3", "pendingQueryPackets.Add")
+}
+
+func ruleR055(p *Program, r *Report) {
+	strFn := p.FuncObj("sqlparser.String")
+	if strFn == nil {
+		r.Anchor("R05.5", "sqlparser.String")
+		return
+	}
+	n := 0
+	for _, spec := range []string{"acra-censor/common.CheckTableNamesMatch", "acra-censor/common.checkTableExprMatch"} {
+		fn := p.Func(spec)
+		if fn == nil || fn.Blocks == nil {
+			r.Anchor("R05.5", spec)
+			continue
+		}
+		setParam := paramByName(fn, "setOfTables")
+		for _, b := range fn.Blocks {
+			for _, in := range b.Instrs {
+				lk, ok := in.(*ssa.Lookup)
+				if !ok || lk.X != ssa.Value(setParam) {
+					continue
+				}
+				n++
+				key := stripConv(lk.Index)
+				good := false
+				detail := "key computed from " + key.String()
+				if c, ok := key.(*ssa.Call); ok && calleeOfCommon(c.Common()) == strFn {
+					// the printed node must be a whole table name / expression, not a ColIdent/TableIdent component
+					arg := stripConv(c.Common().Args[0])
+					t := arg.Type().String()
+					if strings.HasSuffix(t, "sqlparser.TableName") || strings.HasSuffix(t, "sqlparser.SimpleTableExpr") || strings.HasSuffix(t, "sqlparser.TableExpr") {
+						good = true
+					} else {
+						detail = "sqlparser.String of a " + t
+					}
+				}
+				r.Check(good, "R05.5", fnName(fn), "table-rule lookup key", p.Pos(lk.Pos()), "printed from the complete table name", "a table rule is looked up by "+detail+": rules written with a schema qualifier never match this statement kind, and unqualified rules match tables of every schema")
+			}
+		}
+	}
+	if n == 0 {
+		r.Bad("R05.5", "acra-censor/common", "table-rule lookups", "-", "no lookup into the table-rule set found in the table matchers")
+	}
 }
